@@ -17,9 +17,11 @@ func genHistory(rng *lib.Rand, k int, thorough bool) *History {
 		dims = append(dims, [3]int{2, 2, 2}, [3]int{3, 2, 1})
 	}
 	g := Geom{BS: 16, Dim: dims[rng.Intn(len(dims))], Org: [3]int{rng.Intn(4), rng.Intn(4), rng.Intn(4)}}
-	if adversarial == "negorg" {
+	if adversarial == "negorg" || rng.Chance(0.3) {
+		// block coordinates below zero (volumes straddling the origin)
 		g.Org = [3]int{rng.Intn(4) - 2, rng.Intn(4) - 2, rng.Intn(4) - 2}
 	}
+	g.Lo = k%2 == 1 // every other history: MaxDownresLevel 1, scale 1 observed
 	h := &History{G: g, Kind: "proofread"}
 	n := g.N()
 	nl := 5 + rng.Intn(5)
@@ -642,6 +644,9 @@ func driveGenerated(e *Exec, rng *lib.Rand) {
 	blocks := allBlocks(g)
 	// initial ingest: all blocks, or a part now and the rest later
 	via := []string{"blocks", "blocks", "raw", "offline"}[rng.Intn(4)]
+	if g.Lo && via == "offline" {
+		via = "blocks" // ingest-supervoxels leaves the lower scales to the client
+	}
 	first := blocks
 	var later [][3]int
 	if len(blocks) > 1 && via != "offline" && rng.Chance(0.4) {
@@ -810,6 +815,35 @@ func driveGenerated(e *Exec, rng *lib.Rand) {
 			continue
 		}
 		e.step(op)
+	}
+	if adversarial == "dagmerge" {
+		// two branches of one parent, each with a mapping operation, then a DAG merge node
+		e.step(Op{K: "commit", V: cur})
+		e.step(Op{K: "branch", V: cur, Child: len(e.uuids)})
+		a := len(e.uuids) - 1
+		e.step(Op{K: "newversion", V: cur, Child: len(e.uuids)})
+		b := len(e.uuids) - 1
+		for _, v := range []int{a, b} {
+			for _, kind := range []string{"merge", "cleave", "renumber"} {
+				if op, ok := e.genOp(rng, v, kind, false); ok {
+					e.step(op)
+					break
+				}
+			}
+			e.step(Op{K: "commit", V: v})
+		}
+		e.step(Op{K: "dagmerge", V: b, Labels: []uint64{uint64(a)}, Child: len(e.uuids)})
+	}
+	if adversarial == "ingest-overwrite" {
+		// contract violation the server accepts: POST blocks onto blocks already written
+		if pr := e.presentAt(cur); len(pr) > 0 {
+			var bl [][3]int
+			for b := range pr {
+				bl = append(bl, b)
+			}
+			sort.Slice(bl, func(i, j int) bool { return g.bidOf(bl[i]) < g.bidOf(bl[j]) })
+			e.step(Op{K: "ingest", V: cur, Via: "blocks", Blocks: bl[:1], Bad: "ingest-overwrite"})
+		}
 	}
 	e.step(Op{K: "observe", V: cur})
 	e.h.Ops = nil
